@@ -14,4 +14,32 @@ package executor
 //@   property C06
 //@   requires this != nil && this.logger != nil
 //@   ensures [nonneg] result0 != nil ==> result0.TransferValue != nil && big(result0.TransferValue) >= 0
-//@   ensures [ok]     result0 != nil ==> result1 == ""
+//@   ensures [ok]     (result0 != nil) == (result1 == "")
+//@   ensures [fresh]  result0 != nil ==> fresh(result0)
+//@   modifies nothing
+
+// The balance pre-check of a contract transaction (C06): after a successful BeforeExecute the source still
+// holds gasLimit*gasPrice + transferValue - AFTER the flat fee was taken. This is what makes the unchecked
+// debit of the gas fee in Execute (SubBalance result ignored, fee account credited unconditionally) safe.
+//@ func preCheckContractFee
+//@   property C06
+//@   option intmode=math
+//@   requires [a] tx != nil && accountDB != nil
+//@   requires [b] raw.TransferValue != nil
+//@   requires [c] defaultGasPrice != nil && big(defaultGasPrice) == 1000000000
+//@   requires [d] logger != nil
+//@   ensures [funded] result == nil && flag(IsProposal015) ==> balOf(hexAddr(tx.Source)) >= raw.GasLimit * 1000000000 + big(raw.TransferValue)
+//@   ensures [err]    result != nil ==> result == ErrInsufficientFunds
+//@   modifies nothing
+
+//@ func validateNonce
+//@   option trusted
+//@   modifies nothing
+
+//@ func contractExecutor.BeforeExecute
+//@   property C06
+//@   option intmode=math
+//@   requires this != nil && this.logger != nil && tx != nil && accountDB != nil && context != nil && logger != nil && defaultGasPrice != nil && big(defaultGasPrice) == 1000000000
+//@   requires typeid(service.txpoolInstance) != 0
+//@   requires [wf] forall a common.Address :: balOf(a) >= 0
+//@   ensures [funded] result0 && flag(IsProposal015) ==> has(context, "contractData") && istype(context["contractData"], *ContractRawData) && balOf(hexAddr(tx.Source)) >= unbox(context["contractData"], *ContractRawData).GasLimit * 1000000000 + big(unbox(context["contractData"], *ContractRawData).TransferValue)
